@@ -498,6 +498,25 @@ static int h_func(int k, cfg_t *cfg, cfg_opt_t *opt, int argc, const char **argv
 	return h_cb_end();
 }
 
+/* `nest:K` function option: parses its first argument as a text into context K while the calling parse is
+ * still running (the scanner supports that), and logs `nK:NAME:TEXT` followed by an entry `r:RC` */
+static int h_nest(int k, cfg_t *cfg, cfg_opt_t *opt, int argc, const char **argv)
+{
+	int rc = -99;
+
+	(void)cfg;
+	h_cb_begin('n', k, opt);
+	h_buf_puts(&h_cbs, ":");
+	h_buf_hexs(&h_cbs, argc > 0 ? argv[0] : NULL);
+	if (h_cb_end())
+		return 1;
+	if (argc > 0 && h_ctx[k])
+		rc = cfg_parse_buf(h_ctx[k], argv[0]);
+	h_buf_sep(&h_cbs);
+	h_buf_printf(&h_cbs, "r:%d", rc);
+	return 0;
+}
+
 static void h_print(int k, cfg_opt_t *opt, unsigned int index, FILE *fp)
 {
 	(void)k;
@@ -510,6 +529,7 @@ static void h_print(int k, cfg_opt_t *opt, unsigned int index, FILE *fp)
 	static int h_valid_##K(cfg_t *c, cfg_opt_t *o) { return h_valid(K, c, o); } \
 	static int h_valid2_##K(cfg_t *c, cfg_opt_t *o, void *v) { return h_valid2(K, c, o, v); } \
 	static int h_func_##K(cfg_t *c, cfg_opt_t *o, int n, const char **v) { return h_func(K, c, o, n, v); } \
+	static int h_nest_##K(cfg_t *c, cfg_opt_t *o, int n, const char **v) { return h_nest(K, c, o, n, v); } \
 	static void h_print_##K(cfg_opt_t *o, unsigned int i, FILE *fp) { h_print(K, o, i, fp); }
 H_FAMILY(0) H_FAMILY(1) H_FAMILY(2) H_FAMILY(3)
 #define H_TAB(name) { h_##name##_0, h_##name##_1, h_##name##_2, h_##name##_3 }
@@ -517,6 +537,7 @@ static const cfg_callback_t h_parse_tab[H_NK] = H_TAB(parse);
 static const cfg_validate_callback_t h_valid_tab[H_NK] = H_TAB(valid);
 static const cfg_validate_callback2_t h_valid2_tab[H_NK] = H_TAB(valid2);
 static const cfg_func_t h_func_tab[H_NK] = H_TAB(func);
+static const cfg_func_t h_nest_tab[H_NK] = H_TAB(nest);
 static const cfg_print_func_t h_print_tab[H_NK] = H_TAB(print);
 
 /* ------------------------------------------------------------- print filter */
@@ -706,6 +727,8 @@ static void h_schema_opt(h_schema *sc, const char **pp, cfg_opt_t *o)
 			o->func = cfg_include;
 		else if (!strncmp(t, "user:", 5))
 			o->func = h_func_tab[h_kidx(h_tok_long(t + 5))];
+		else if (!strncmp(t, "nest:", 5))
+			o->func = h_nest_tab[h_kidx(h_tok_long(t + 5))];
 		else
 			h_bad = 1;
 	} else {
